@@ -374,6 +374,40 @@ func VerifC08BlockedInterleave() {
 	vf.Reach("done")
 }
 
+// VerifC08PushBehindData: a PUSH_PROMISE and then the trailers of the same stream arrive while
+// DATA of that stream is held back by the receiver's window: both header blocks wait in the
+// stream's queue (in the order they were encoded) and must still be the blocks that were sent
+// when the window opens - a queued block may not share storage with a later one.
+func VerifC08PushBehindData() {
+	w := zznewWorld(nil)
+	p := zznewPair(w, false)
+	win := vf.Choice("blocking-window", 2)
+	vf.Assert(w.cw.WriteSettings(http2.Setting{ID: http2.SettingInitialWindowSize, Val: uint32(win)}) == nil, "harness-write-settings")
+	vf.Assert(w.pumpClient() == nil, "relay-accepts-settings")
+	p.sendHeaders(1, 0, false, nil, 0, 0)
+	p.sendData(1, vf.Bytes("data", 2), false, false, 0)
+	promise := uint32(2 + 2*vf.Choice("promised-stream", 2))
+	block := p.encode(zzheaderSets[0])
+	vf.Assert(p.writer().WritePushPromise(http2.PushPromiseParam{StreamID: 1, PromiseID: promise, BlockFragment: block, EndHeaders: true}) == nil, "harness-write-push-promise")
+	p.sent[1] = append(p.sent[1], zzitem{kind: zzkPush, promise: promise, hdrs: zzheaderSets[0]})
+	second := vf.Choice("second-block-on", 2)
+	if second == 0 {
+		p.sendHeaders(1, 1, true, nil, 0, 0) // trailers of the same stream, queued behind the promise
+	} else {
+		// a second promise on the same stream, queued behind the first
+		b2 := p.encode(zzheaderSets[1])
+		vf.Assert(p.writer().WritePushPromise(http2.PushPromiseParam{StreamID: 1, PromiseID: promise + 2, BlockFragment: b2, EndHeaders: true}) == nil, "harness-write-push-promise")
+		p.sent[1] = append(p.sent[1], zzitem{kind: zzkPush, promise: promise + 2, hdrs: zzheaderSets[1]})
+	}
+	vf.Assert(p.pump() == nil, "relay-accepts-frames")
+	p.collect()
+	vf.Assert(w.cw.WriteWindowUpdate(1, 10) == nil, "harness-write-window-update")
+	vf.Assert(w.pumpClient() == nil, "relay-accepts-window-update")
+	p.collect()
+	p.compare("push-behind-data", []uint32{1})
+	vf.Reach("done")
+}
+
 func zzrender(f http2.Frame) string {
 	switch f := f.(type) {
 	case *http2.SettingsFrame:
